@@ -55,7 +55,10 @@ theorem C06_processed_nodup (y : Sym) (minSeg maxSeg minTof maxTof : Int) (n i :
   processed_nodup y minSeg maxSeg minTof maxTof n i c.wf c.npos c.seg c.tof hi
 
 /-- **partition**: every (view, segment) of the data is processed by exactly one subset, exactly once
-    (the count over the concatenation of all subsets is 1), and nothing outside the data is processed. -/
+    (the count over the concatenation of all subsets is 1), and nothing outside the data is processed.
+    (`processed` is now also what the correspondence run compares with the viewgrams that the real
+    `BackProjectorByBin::back_project(ProjData, subset, n)` reads and `ForwardProjectorByBin::forward_project` writes,
+    through `projected`, see `C06_projector_partition`; and with `TrivialDataSymmetriesForBins` = all flags off.) -/
 theorem C06_subsets_partition (y : Sym) (minSeg maxSeg minTof maxTof : Int) (n : Nat)
     (c : Cfg y minSeg maxSeg minTof maxTof n) (p : VS) :
     ((List.range n).flatMap fun i => processed y 0 (y.V - 1) minSeg maxSeg minTof maxTof i n).count p =
@@ -68,7 +71,27 @@ theorem C06_tof_loop_multiplicity (y : Sym) (minV maxV minSeg maxSeg minTof maxT
       (maxTof + minTof + 1).toNat * (basicVSInSubset y minV maxV minSeg maxSeg 0 0 i n).count b :=
   tof_loop_multiplicity y minV maxV minSeg maxSeg minTof maxTof i n b
 
-/-- **balance**: the reported flag is true exactly when all subsets process the same number of viewgrams -/
+/-- **partition with TOF bins** — "the view/segment groups processed for the different subsets are disjoint and together
+    contain every (segment, view, TOF bin) of the data exactly once": over all subsets the loops of
+    `BackProjectorByBin::back_project(ProjData, subset, n)` / `ForwardProjectorByBin::forward_project(ProjData, subset, n)`
+    (basic pairs of the subset × TOF bins × related pairs) touch every (view, segment, TOF bin) of the data exactly
+    once and nothing else. -/
+theorem C06_projector_partition (y : Sym) (minSeg maxSeg minTof maxTof : Int) (n : Nat)
+    (c : Cfg y minSeg maxSeg minTof maxTof n) (p : VS) (k : Int) :
+    ((List.range n).flatMap fun i => projected y 0 (y.V - 1) minSeg maxSeg minTof maxTof i n).count (p, k) =
+      if (0 ≤ p.view ∧ p.view < y.V ∧ minSeg ≤ p.seg ∧ p.seg ≤ maxSeg) ∧ (minTof ≤ k ∧ k ≤ maxTof) then 1 else 0 :=
+  projector_partition y minSeg maxSeg minTof maxTof n c.wf c.npos c.seg c.tof p k
+
+/-- per subset the projectors touch exactly the processed pairs, each with every TOF bin (no hypothesis: also
+    shows the multiplicity `maxTof + minTof + 1` of `C06_tof_loop_multiplicity` for an asymmetric TOF range) -/
+theorem C06_projected_count (y : Sym) (minV maxV minSeg maxSeg minTof maxTof : Int) (i n : Nat) (p : VS) (k : Int) :
+    (projected y minV maxV minSeg maxSeg minTof maxTof i n).count (p, k) =
+      (intRange minTof maxTof).count k * (processed y minV maxV minSeg maxSeg minTof maxTof i n).count p :=
+  projected_count y minV maxV minSeg maxSeg minTof maxTof i n p k
+
+/-- **balance**: the reported flag is true exactly when all subsets process the same number of viewgrams
+    (the correspondence run now also compares `balanced` with `subsets_are_approximately_balanced()` after the objective
+    function's `set_up`, i.e. with the default `max_segment_num_to_process = -1` resolved by `resolveMaxSeg`, and on TOF data) -/
 theorem C06_balanced_iff (y : Sym) (maxSeg : Int) (n : Nat) (h : y.WF) (hn : 0 < n) :
     balanced y 0 (y.V - 1) maxSeg n = true ↔
       ∀ i, i < n → (processed y 0 (y.V - 1) (-maxSeg) maxSeg 0 0 i n).length =
@@ -87,7 +110,41 @@ theorem C06_permute_perm (n : Nat) (draws : List Nat) (h : draws.length = n) :
     (permute n draws).Perm (List.range n) :=
   permute_perm n draws h
 
+/-- **schedule of a whole run** — "within each full iteration every subset is used exactly once, also when the subset
+    order is randomised or a non-zero start subset is chosen": in the list of subset numbers that
+    `IterativeReconstruction::reconstruct` passes to the objective function for sub-iterations `s0 … N`, every full
+    iteration `m·n+1 … (m+1)·n` that lies inside the run is a permutation of the subsets — for every start subset, start
+    sub-iteration, number of sub-iterations, randomised or not, whatever `rand()` returns. -/
+theorem C06_recon_full_iteration (n ss s0 N m : Nat) (rnd : Bool) (draw : Nat → Nat) (hn : 0 < n)
+    (h1 : s0 ≤ m * n + 1) (h2 : (m + 1) * n ≤ N) :
+    ∃ l : List Nat, ((reconSchedule n ss rnd s0 N draw).drop (m * n + 1 - s0)).take n = l.map some ∧
+      l.Perm (List.range n) :=
+  recon_full_iteration n ss s0 N m rnd draw hn h1 h2
+
+/-- one entry per sub-iteration -/
+theorem C06_recon_length (n ss : Nat) (rnd : Bool) (s0 N : Nat) (draw : Nat → Nat) :
+    (reconSchedule n ss rnd s0 N draw).length = N + 1 - s0 :=
+  reconSchedule_length n ss rnd s0 N draw
+
+/-- every sub-iteration of the run gets a valid subset number — proved only for runs in fixed order or starting at the
+    first sub-iteration of an iteration.  Missing: randomised order with `(start_subiteration_num - 1) % num_subsets ≠ 0`,
+    where `get_subset_num` indexes `_current_subset_array` before it was generated (`C06_recon_restart_fails`). -/
+theorem C06_recon_defined_partial (n ss s0 N : Nat) (rnd : Bool) (draw : Nat → Nat) (hn : 0 < n)
+    (h : rnd = false ∨ (s0 - 1) % n = 0) :
+    ∀ e ∈ reconSchedule n ss rnd s0 N draw, ∃ x, e = some x ∧ x < n :=
+  recon_defined n ss s0 N rnd draw hn h
+
+/-- negative witness: 2 subsets, randomised order, run started at sub-iteration 2 of 4: the first subset number is read
+    from the empty array (the following full iteration is fine) -/
+theorem C06_recon_restart_fails :
+    reconSchedule 2 0 true 2 4 (fun _ => 0) = [none, some 0, some 1] := by decide
+
 /-! non-vacuity -/
+example : reconSchedule 3 1 false 2 7 (fun _ => 0) = [some 2, some 0, some 1, some 2, some 0, some 1] := by decide
+example : reconSchedule 3 0 true 4 9 (fun j => [2, 0, 0, 1, 1, 0].getD j 0) =
+    [some 2, some 0, some 1, some 1, some 2, some 0] := by decide
+example : (projected (Sym.effective 4 false true false true) 0 3 0 0 (-1) 1 1 2).length = 6 := by decide
+
 example : Cfg (Sym.effective 16 true false true true) (-2) 2 (-3) 3 4 :=
   { wf := effective_WF 16 (by decide) _ _ _ _, npos := by decide, seg := by intro _; rfl, tof := by decide }
 
